@@ -175,6 +175,7 @@ fn general_lines(g: &Value) -> Vec<String> {
 }
 
 pub fn replay(args: &Args, s: &mut Summary) {
+    let prop = args.opt("prop").unwrap_or("C12").to_string();
     let spellings = args.opt_usize("spellings", 2);
     let mut rng = Rng::new(args.seed);
     let mut alpha: Vec<Value> = vec![];
@@ -226,6 +227,24 @@ pub fn replay(args: &Args, s: &mut Summary) {
             match r {
                 Err(p) => s.mismatch("panic", json!({"case": c, "text": text, "panic": p})),
                 Ok((Err(e), _, _)) => s.mismatch("io-error", json!({"case": c, "text": text, "err": e.to_string()})),
+                Ok((Ok(cp), per_line, _)) if prop == "C06" => {
+                    // C06: the verdicts, and decode(file) == decode(file minus rejected lines)
+                    if sp == 0 && per_line != acc {
+                        s.mismatch("accept-verdict", json!({"case": c, "text": text, "got": per_line}));
+                    } else {
+                        let mut only = header(g, &mut Rng::new(1));
+                        for (i, t) in texts.iter().enumerate() {
+                            if acc[i] {
+                                only.push_str(t);
+                                only.push('\n');
+                            }
+                        }
+                        match rosu_map::from_str::<TimingPoints>(&only) {
+                            Ok(o) if proj_cp(&o.control_points, &tm) == cp => {}
+                            _ => s.mismatch("decode(file)!=decode(file-minus-rejected)", json!({"file": text, "without_rejected": only})),
+                        }
+                    }
+                }
                 Ok((Ok(cp), per_line, other)) => {
                     if cp != c["cp"] {
                         s.mismatch("control-points", json!({"case": c, "text": text, "got": cp,
